@@ -153,7 +153,7 @@ def run(tier, seed):
         runs = core.split_runs(lines)
         happy = [lines[s:e] for (s, e) in runs if json.loads(lines[s]).get("run") == "happy"]
         tested = []
-        if not rejects:
+        if not rejects and not v.violations:
             tested = selftest.run("Trace_Activation", happy[0], decoded, wd, corruptions())
         nev = len(lines)
         samples = [{"plan": plans[5], "first_events": [json.loads(x) for x in lines[runs[5][0]:runs[5][0] + 6]]}]
